@@ -288,6 +288,17 @@ class Sym:
             if is_none_agg(args[0]):
                 return ("diverge",)
             return payload(args[0])
+        # the writer's option builders (`fn large_file(mut self, v) -> Self { self.large_file = v; self }`): a field update of the
+        # receiver, so that a builder chain and a struct literal denote the same options value
+        mb = re.search(r"^write::FileOptions::(large_file|last_modified_time|compression_method|compression_level|unix_permissions)$", name)
+        if mb and len(args) == 2 and args[0][0] in ("snap", "call", "agg", "arg"):
+            fld = mb.group(1)
+            val = args[1]
+            if fld == "unix_permissions":
+                fld, val = "permissions", mk_some(("bin", "BitAnd", args[1], ("const", "u32", 0o777)))
+            base, ov = (args[0][1], dict(args[0][2])) if args[0][0] == "snap" else (args[0], {})
+            ov[fld] = val
+            return ("snap", base, tuple(sorted(ov.items())))
         # opaque call: havoc what it may write through
         for a in args:
             if a[0] == "ref" and len(a) > 2 and a[2]:
